@@ -9,6 +9,7 @@ import (
 	"context"
 	"encoding/json"
 	"fmt"
+	"k8s.io/apimachinery/pkg/api/resource"
 	"math/big"
 	"strconv"
 	"strings"
@@ -158,6 +159,7 @@ func eval(in []*big.Int) []*big.Int {
 	}
 	cfgOK := d.Bool()
 	cfgNvsw, cfgNsg := d.Int(), d.Int()
+	pre := d.Int() // device request the first container already carries: 0 none, 1 aliyun/eni=9, 2 aliyun/member-eni=9, 3 aliyun/member-eni=7 (quantities no network list reaches)
 	if d.Bad {
 		return nil
 	}
@@ -178,6 +180,14 @@ func eval(in []*big.Int) []*big.Int {
 	pod.Spec.HostNetwork = hostnet
 	for i := 0; i < ncont; i++ {
 		pod.Spec.Containers = append(pod.Spec.Containers, corev1.Container{Name: fmt.Sprintf("c%d", i), Image: "img"})
+	}
+	preName, preQty := "", int64(0)
+	if pre != 0 && ncont > 0 {
+		preName = []string{"", "aliyun/eni", "aliyun/member-eni", "aliyun/member-eni"}[pre]
+		q := resource.MustParse([]string{"", "9", "9", "7"}[pre])
+		preQty = q.Value()
+		pod.Spec.Containers[0].Resources.Requests = corev1.ResourceList{corev1.ResourceName(preName): q, corev1.ResourceCPU: resource.MustParse("100m")}
+		pod.Spec.Containers[0].Resources.Limits = corev1.ResourceList{corev1.ResourceName(preName): q}
 	}
 	if ignored {
 		podLabels[types.IgnoreByTerway] = "true"
@@ -326,7 +336,19 @@ func eval(in []*big.Int) []*big.Int {
 	}
 	cnt, isENI := 0, false
 	if len(out.Spec.Containers) > 0 {
+		both := 0
+		for _, nm := range []corev1.ResourceName{"aliyun/eni", "aliyun/member-eni"} {
+			if _, ok := out.Spec.Containers[0].Resources.Requests[nm]; ok {
+				both++
+			}
+		}
 		for name, q := range out.Spec.Containers[0].Resources.Requests {
+			if string(name) == preName {
+				lim := out.Spec.Containers[0].Resources.Limits[name]
+				if both == 2 || (q.Value() == preQty && lim.Value() == preQty) {
+					continue // what the pod came with, untouched: not something admission wrote
+				}
+			}
 			if name == "aliyun/eni" || name == "aliyun/member-eni" {
 				cnt = int(q.Value())
 				isENI = name == "aliyun/eni"
@@ -442,6 +464,7 @@ func gen(r *hx.Rand) [][]*big.Int {
 			genPnw(r, &b, false)
 		}
 		b.Bool(r.Chance(9, 10)).I(r.Range(0, 2), []int{0, 1, 3}[r.Intn(3)])
+		b.I([]int{0, 0, 0, 1, 2, 3}[r.Intn(6)])
 		out = append(out, b.L)
 	}
 	return out
